@@ -113,4 +113,47 @@ theorem finish_mismatch (t : St) (cl : Nat) :
     simp [hc, hcl, hl] <;> (repeat' split) <;> simp_all <;>
     (intro h1 h2 h3; subst h1; rename_i h; exact h h2 h3)
 
+/-! ## Layers of the parse-of-render statement (`C27_parses`) -/
+
+/-- layer 0: the line splitter stops at the first CRLF; a line without CR comes back unchanged -/
+theorem takeLine_append (l t acc : Bytes) (h : ∀ b ∈ l, b ≠ 13) :
+    takeLine (l ++ 13 :: 10 :: t) acc = some (acc.reverse ++ l, t) := by
+  induction l generalizing acc with
+  | nil => simp [takeLine]
+  | cons b l ih =>
+    have hb : b ≠ 13 := h b (by simp)
+    have hl : ∀ x ∈ l, x ≠ 13 := fun x hx => h x (by simp [hx])
+    have : takeLine (b :: (l ++ 13 :: 10 :: t)) acc = takeLine (l ++ 13 :: 10 :: t) (b :: acc) := by
+      cases hlt : l ++ 13 :: 10 :: t with
+      | nil => simp at hlt
+      | cons c r =>
+        conv => lhs; unfold takeLine
+        split
+        · rename_i heq; simp at heq
+        · rename_i heq; simp at heq; exact absurd heq.1 hb
+        · rename_i heq; simp at heq; obtain ⟨h1, h2⟩ := heq; subst h1; subst h2; rfl
+    rw [List.cons_append, this, ih (b :: acc) hl]
+    simp
+
+theorem digit_toNat (d : Nat) (h : d < 10) : (digit d).toNat - 48 = d ∧ isDig (digit d) = true := by
+  have : d = 0 ∨ d = 1 ∨ d = 2 ∨ d = 3 ∨ d = 4 ∨ d = 5 ∨ d = 6 ∨ d = 7 ∨ d = 8 ∨ d = 9 := by omega
+  rcases this with h | h | h | h | h | h | h | h | h | h <;> subst h <;> decide
+
+/-- layer 1: the status line the writer emits parses back to (version, status) -/
+theorem parseStatusLine_statusLine (p11 : Bool) (code : Nat) (h1 : 100 ≤ code) (h2 : code ≤ 999) :
+    parseStatusLine (statusLine p11 code) = some (p11, code) := by
+  have d1 := digit_toNat (code / 100) (by omega)
+  have d2 := digit_toNat (code / 10 % 10) (by omega)
+  have d3 := digit_toNat (code % 10) (by omega)
+  unfold parseStatusLine statusLine codeBytes
+  simp only [h1, h2, and_self, if_true]
+  cases p11 <;>
+    simp [protoBytes, d1.1, d1.2, d2.1, d2.2, d3.1, d3.2] <;> omega
+
+/-- layer 2 (Content-Length framing): a payload of exactly the announced length is the body, nothing is left -/
+theorem cl_body (payload rest : Bytes) :
+    (payload ++ rest).take payload.length = payload ∧ (payload ++ rest).drop payload.length = rest := by
+  simp
+
+
 end BfeVerif.C27
